@@ -111,6 +111,79 @@ def ieGraphK (exact : Bool) : Nat → KSt → Nat → KSt
 def ieModelK (exact : Bool) (fuel : Nat) (w : World) (g : Nat) (funcs : List Nat) : KSt :=
   funcs.foldl (fun s f => ieGraphK exact fuel s f) (ieGraphK exact fuel ⟨w, false, []⟩ g)
 
+/-! ## RemoveInitializersFromInputsPass / AddInitializersToInputsPass (constant_manipulation.py 216-259): main graph -/
+
+/-- `graph.inputs.clear(); graph.inputs.extend(new_inputs)` with `new_inputs` = the inputs that are not initializer
+    values of this graph -/
+def rmInitInputsK (w : World) (g : Nat) : KSt :=
+  let keep := (w.gr g).inputs.filter (fun v => !((w.gr g).inits.map Prod.snd).contains v)
+  ((KSt.mk w false []).call (.one (.io g .inp .clear))).call (.one (.io g .inp (.extend keep)))
+
+/-- `graph.inputs.append(initializer)` for every initializer that is not in `set(graph.inputs)` (taken at the start) -/
+def addInitInputsK (w : World) (g : Nat) : KSt :=
+  ((w.gr g).inits.map Prod.snd).foldl (fun s v =>
+    if (w.gr g).inputs.contains v then s else s.call (.one (.io g .inp (.append v)))) ⟨w, false, []⟩
+
+/-! ## OutputFixPass (output_fix.py 51-141): a pass that CREATES nodes and values -/
+
+/-- `f"{value.name}"` -/
+def nameStr : Option String → String
+  | some s => s
+  | none => "None"
+
+/-- `graph_like.subgraphs()` (_core.py 3900-3921): the graphs held by attributes, in `RecursiveGraphIterator` order,
+    first occurrence (a graph that was seen already contributes nothing new) -/
+def subgraphsK : Nat → World → Nat → List Nat → List Nat
+  | 0, _, _, acc => acc
+  | fuel + 1, w, g, acc =>
+    (w.gr g).nodes.foldl (fun acc n =>
+      (w.node n).attrs.foldl (fun acc a =>
+        a.2.foldl (fun acc sub => if acc.contains sub then acc else subgraphsK fuel w sub (acc ++ [sub])) acc) acc) acc
+
+/-- `(graph_like, *graph_like.subgraphs())` -/
+def graphAndSubs (fuel : Nat) (w : World) (g : Nat) : List Nat := g :: (subgraphsK fuel w g []).filter (· != g)
+
+/-- the new Identity node and its output: `ir.node("Identity", inputs=[output])` allocates the next node id and the
+    next value id -/
+def newIdentity (s : KSt) (o : Nat) : KSt := s.call (.one (.newNode "Identity" none [some o] none none none))
+
+/-- `_alias_multi_used_outputs` for one graph: the second and later occurrences of a value in the output list are
+    replaced by the output of a new Identity node appended to the graph (named `f"{output.name}_alias_{i}"`) -/
+def ofixMultiK (s : KSt) (g : Nat) : KSt :=
+  ((enumFrom 0 (s.w.gr g).outputs).foldl (fun (p : KSt × List Nat) (io : Nat × Nat) =>
+    if p.1.raised then p
+    else if !p.2.contains io.2 then (p.1, io.2 :: p.2)
+    else
+      let n := p.1.w.nodes.length
+      let v := p.1.w.vals.length
+      let s1 := newIdentity p.1 io.2
+      let s2 := s1.call (.one (.setName v (some (nameStr (s1.w.val io.2).name ++ "_alias_" ++ toString io.1))))
+      let s3 := s2.call (.one (.append g n))
+      (s3.call (.one (.io g .out (.setItem (Int.ofNat io.1) v))), p.2)) (s, [])).1
+
+/-- `_alias_direct_outputs` for one graph: an output that is a graph input (of any graph) is replaced by the output
+    of a new Identity node that takes over its name; the input is renamed `f"{name}_orig"` -/
+def ofixDirectK (s : KSt) (g : Nat) : KSt :=
+  ((enumFrom 0 (s.w.gr g).outputs).filter (fun io => (s.w.val io.2).isIn)).foldl (fun s io =>
+    if s.raised then s
+    else
+      let n := s.w.nodes.length
+      let v := s.w.vals.length
+      let s1 := newIdentity s io.2
+      let s2 := s1.call (.one (.setName v (s1.w.val io.2).name))
+      let s3 := s2.call (.one (.setName io.2 (some (nameStr (s2.w.val io.2).name ++ "_orig"))))
+      let s4 := s3.call (.one (.append g n))
+      s4.call (.one (.io g .out (.setItem (Int.ofNat io.1) v)))) s
+
+/-- one graph-like: `_alias_multi_used_outputs` over it and its subgraphs, then `_alias_direct_outputs` -/
+def ofixGraphLikeK (fuel : Nat) (s : KSt) (g : Nat) : KSt :=
+  let s1 := (graphAndSubs fuel s.w g).foldl ofixMultiK s
+  (graphAndSubs fuel s1.w g).foldl ofixDirectK s1
+
+/-- `OutputFixPass.call`: the main graph, then every function -/
+def ofixModelK (fuel : Nat) (w : World) (g : Nat) (funcs : List Nat) : KSt :=
+  funcs.foldl (ofixGraphLikeK fuel) (ofixGraphLikeK fuel ⟨w, false, []⟩ g)
+
 /-- replaying a list of calls -/
 def replay (w : World) (ops : List AnyOp) : World := ops.foldl (fun w o => (stepAny w o).1) w
 
